@@ -2,6 +2,7 @@ package num
 
 import (
 	"fmt"
+	"sync"
 	"go/token"
 	"go/types"
 	"strings"
@@ -87,12 +88,12 @@ type leaf struct {
 	kind int // 0 int/bool, 1 slice-like (len), 2 pointer-like
 }
 
-var leafCache = map[types.Type][]leaf{}
+var leafCache sync.Map // types.Type -> []leaf
 
 // leavesOf enumerates the scalar leaves of a type (struct fields recursively).
 func leavesOf(t types.Type) []leaf {
-	if l, ok := leafCache[t]; ok {
-		return l
+	if l, ok := leafCache.Load(t); ok {
+		return l.([]leaf)
 	}
 	var out []leaf
 	var walk func(t types.Type, path string, depth int)
@@ -118,7 +119,7 @@ func leavesOf(t types.Type) []leaf {
 		}
 	}
 	walk(t, "", 0)
-	leafCache[t] = out
+	leafCache.Store(t, out)
 	return out
 }
 
@@ -149,8 +150,9 @@ func (e *Engine) zeroObject(st *State, obj string, t types.Type) {
 
 // havocObject forgets all leaves of an object.
 func (e *Engine) havocObject(st *State, obj string) {
-	for key, a := range e.cellAtom {
-		if strings.HasPrefix(key, obj) && (len(key) == len(obj) || key[len(obj)] == '.' || key[len(obj)] == '#') {
+	for _, key := range e.sortedCellKeys() {
+		a := e.cellAtom[key]
+		if strings.HasPrefix(key, obj) && (len(key) == len(obj) || key[len(obj)] == '.' || key[len(obj)] == '#' || key[len(obj)] == '[') {
 			if mentionsAtom(st, a) {
 				st.Forget(a)
 			}
@@ -198,11 +200,16 @@ func (e *Engine) havocAllMemory(st *State) {
 	e.havocMemoryExcept(st, nil)
 }
 
+var escapeMu sync.Mutex
 var escapeCache = map[ssa.Value]bool{}
 
 // addressEscapes reports whether pointer value v (an Alloc or a parameter) may
 // be retained or reached by code the analysis does not follow.
 func addressEscapes(v ssa.Value, pkg *ssa.Package, depth int) bool {
+	if depth == 0 {
+		escapeMu.Lock()
+		defer escapeMu.Unlock()
+	}
 	if r, ok := escapeCache[v]; ok {
 		return r
 	}
